@@ -166,15 +166,32 @@ pub fn gen(prop: &str, tier: &str, seed: u64, out: &mut Vec<String>) {
                         if !t && r.chance(1, 2) {
                             continue;
                         }
-                        out.push(format!("enc {b} {bs} preMem sync val {} -", nat_list(&q)));
+                        // all five encoders and all store kinds take turns ("the encoding" is every encoder's)
+                        let (fl, mode) = *r.pick(&[("sync", "val"), ("sync", "plain"), ("fsm", "val"), ("fsm", "plain"), ("mixed", "val")]);
+                        let store = *r.pick(&["preMem", "postMem", "preIo", "postIo"]);
+                        out.push(format!("enc {b} {bs} {store} {fl} {mode} {} -", nat_list(&q)));
                     }
                 }
             }
             for &bs in &bss {
                 for size in hash_sizes(bs, 4, cap) {
                     let b = blob_desc(&mut r, size);
-                    for q in query_classes(&mut r, (size + 1023) / 1024, bs) {
-                        out.push(format!("enc {b} {bs} postMem fsm val {} -", nat_list(&q)));
+                    let chunks = (size + 1023) / 1024;
+                    let mut qs = query_classes(&mut r, chunks, bs);
+                    // single chunks of the (possibly short) last group, and the size-proof query
+                    let g = 1u64 << bs;
+                    let last_group_start = (chunks.max(1) - 1) / g * g;
+                    qs.push(vec![last_group_start, last_group_start + 1]);
+                    qs.push(vec![chunks.max(1) - 1, chunks.max(1)]);
+                    qs.push(vec![u64::MAX]);
+                    for q in qs {
+                        for (fl, mode) in [("sync", "val"), ("sync", "plain"), ("fsm", "val"), ("fsm", "plain"), ("mixed", "val")] {
+                            if !t && r.chance(1, 2) {
+                                continue;
+                            }
+                            let store = *r.pick(&["preMem", "postMem", "preIo", "postIo"]);
+                            out.push(format!("enc {b} {bs} {store} {fl} {mode} {} -", nat_list(&q)));
+                        }
                     }
                 }
             }
@@ -449,6 +466,48 @@ pub fn gen(prop: &str, tier: &str, seed: u64, out: &mut Vec<String>) {
                 }
             }
         }
+        "C06short" => {
+            // partially filled stores: the data file ends early (at 0, at / inside / next to group
+            // boundaries), intact outboard, repetitive and constant content so that bytes left over
+            // in a scratch buffer could pass for the missing group
+            for &bs in &[0u32, 1, 2, 4] {
+                let g = 1024u64 << bs;
+                let mut sizes: Vec<u64> = vec![1, g / 2, g, g + 1, 2 * g, 3 * g - 1, 4 * g, 5 * g + 300, 8 * g];
+                if t {
+                    sizes.extend([6 * g, 7 * g + 1, 12 * g, 16 * g - 1024]);
+                }
+                for size in sizes {
+                    let chunks = (size + 1023) / 1024;
+                    let blobs = vec![
+                        format!("const:0:{size}"),
+                        format!("const:{}:{size}", 1 + r.below(255)),
+                        format!("rep:0:{size}"),
+                        format!("rep:{}:{size}", r.next() >> 1),
+                        format!("rnd:{}:{size}", r.below(1000)),
+                    ];
+                    for b in blobs {
+                        let mut cuts: Vec<u64> = vec![0, size / 2, size - 1];
+                        for k in 1..=(size / g).min(if t { 16 } else { 6 }) {
+                            cuts.extend([k * g, k * g - 1, k * g + 1, k * g + 1024]);
+                        }
+                        cuts.retain(|c| *c < size);
+                        cuts.sort();
+                        cuts.dedup();
+                        for cut in cuts {
+                            let qs: Vec<Vec<u64>> = vec![vec![0], vec![(cut / 1024).saturating_sub(1 << bs)], vec![cut / 1024, chunks.max(cut / 1024 + 1)], vec![chunks - 1]];
+                            for q in qs {
+                                if !t && r.chance(1, 2) {
+                                    continue;
+                                }
+                                let store = *r.pick(SINKS);
+                                let fl = if r.chance(2, 3) { "sync" } else { "fsm" };
+                                out.push(format!("valid {fl} {store} {b} {bs} {} Td{cut} data", nat_list(&q)));
+                            }
+                        }
+                    }
+                }
+            }
+        }
         "C14" => {
             // pairs of queries selecting the same chunks
             for &bs in &[0u32, 1, 2] {
@@ -469,11 +528,26 @@ pub fn gen(prop: &str, tier: &str, seed: u64, out: &mut Vec<String>) {
                             let last = *canon.last().unwrap();
                             q2.pop();
                             if last <= lc {
-                                match r.below(3) {
+                                match r.below(5) {
                                     0 => q2.push(last),
                                     1 => {
                                         q2.push(last);
                                         q2.push(lc + 1 + r.below(1000));
+                                    }
+                                    2 => {
+                                        // closed up to the end, then an open tail behind it (`..n | MAX..`)
+                                        q2.push(last);
+                                        let e = lc + 1 + r.below(3);
+                                        q2.push(e);
+                                        q2.push(if r.chance(1, 2) { u64::MAX } else { e + 1 + r.below(1000) });
+                                    }
+                                    3 => {
+                                        q2.push(last);
+                                        let e = lc + 1 + r.below(3);
+                                        q2.push(e);
+                                        let a = e + 1 + r.below(1000);
+                                        q2.push(a);
+                                        q2.push(a + 1 + r.below(1 << 40));
                                     }
                                     _ => {
                                         q2.push(last);
